@@ -18,6 +18,7 @@ import DarkluaModel.Rules.ComputeExpressionSound
 import DarkluaModel.Rules.EvalC08Sound
 import DarkluaModel.Rules.AllocSteps
 import DarkluaModel.Rules.UnusedVariableHeap
+import DarkluaModel.Rules.UnusedVariableHeapV
 import DarkluaModel.Rules.NilDeclarationHeap
 /-!
 # C01 — default rules preserve program behaviour: property theorems
@@ -646,6 +647,59 @@ example : Rules.UnusedVariable.Guarded.applyG litApi unusedSample = Rules.Unused
   have h1 : Rules.UnusedVariable.Guarded.applyG litApi unusedSample = unusedSampleOut := by rfl
   have h2 : Rules.UnusedVariable.apply litApi unusedSample = unusedSampleOut := by rfl
   exact ⟨h1.trans h2.symm, h2⟩
+
+/-! ### remove_unused_variable — larger fragment (stage-4 lifting: renumbering of cells, tables AND closures) -/
+
+/-- **Whole rule, larger fragment** (`_partial`): as `rule_refines_remove_unused_variable_partial`, but the guarded
+version `GuardedV.applyG` also performs the removals of declarations whose initialisers only ALLOCATE (function
+expressions, table constructors without computed keys whose values are literals / identifiers / such expressions
+again) and of unused `local function`s whose name is not referenced afterwards. The dropped table / closure
+allocations renumber everything allocated later; outcomes are invariant under that renumbering provided the
+external functions return no heap references (`OracleFlat ρ`: the oracle's results contain no table / closure
+ids — results of the modelled externs are scalars). -/
+theorem rule_refines_remove_unused_variable_partialV (api : EvalApi) (b : Block)
+    (h : Rules.UnusedVariable.GuardedV.applyG api b = Rules.UnusedVariable.apply api b)
+    {N : NumOps} (ρ : ExtOracle N) (hρ : Sem.HeapV.OracleFlat ρ) (n : Nat) (externs : List String) :
+    runProgram ρ n externs (Rules.UnusedVariable.apply api b) = runProgram ρ n externs b :=
+  Rules.UnusedVariable.GuardedV.apply_refines_of_agree api b h ρ hρ n externs
+
+/-- the larger guarded rule itself is sound on EVERY program -/
+theorem rule_refines_remove_unused_variable_guardedV (api : EvalApi) (b : Block)
+    {N : NumOps} (ρ : ExtOracle N) (hρ : Sem.HeapV.OracleFlat ρ) (n : Nat) (externs : List String) :
+    runProgram ρ n externs (Rules.UnusedVariable.GuardedV.applyG api b) = runProgram ρ n externs b :=
+  Rules.UnusedVariable.GuardedV.applyG_refines api b ρ hρ n externs
+
+/-- `litApi`, which also knows that `{}` and function expressions have no side effects -/
+def allocApi : EvalApi :=
+  { litApi with hasSideEffects := fun e => match e with
+      | .table [] | .fn _ => false
+      | e => litApi.hasSideEffects e }
+
+/-- `local function helper() return 1 end; local cache = {}; local cb = function() end; local y = 1; emit(y)` -/
+def unusedAllocSample : Block :=
+  .mk [.localFn .loc "helper" (.mk [] false none none [] [] (.mk [] (some (.ret [.num 1])))),
+       .localAssign .loc [.mk "cache" none] [.table []],
+       .localAssign .loc [.mk "cb" none] [.fn (.mk [] false none none [] [] (.mk [] none))],
+       .localAssign .loc [.mk "y" none] [.num 1],
+       .callStmt (.call (.var "emit") none .tuple [.var "y"])] none
+
+def unusedAllocSampleOut : Block :=
+  .mk [.localAssign .loc [.mk "y" none] [.num 1],
+       .callStmt (.call (.var "emit") none .tuple [.var "y"])] none
+
+-- non-vacuity: the sample is inside the larger `H` (and outside the stage-3 one), and the rule removes a local
+-- function, a table and a closure allocation
+example : Rules.UnusedVariable.GuardedV.applyG allocApi unusedAllocSample = Rules.UnusedVariable.apply allocApi unusedAllocSample ∧
+    Rules.UnusedVariable.apply allocApi unusedAllocSample = unusedAllocSampleOut ∧
+    Rules.UnusedVariable.Guarded.applyG allocApi unusedAllocSample ≠ Rules.UnusedVariable.apply allocApi unusedAllocSample := by
+  have h1 : Rules.UnusedVariable.GuardedV.applyG allocApi unusedAllocSample = unusedAllocSampleOut := by rfl
+  have h2 : Rules.UnusedVariable.apply allocApi unusedAllocSample = unusedAllocSampleOut := by rfl
+  have h3 : Rules.UnusedVariable.Guarded.applyG allocApi unusedAllocSample = unusedAllocSample := by rfl
+  refine ⟨h1.trans h2.symm, h2, ?_⟩
+  rw [h3, h2]
+  intro h
+  have := congrArg (fun b => match b with | .mk ss _ => ss.length) h
+  simp [unusedAllocSample, unusedAllocSampleOut] at this
 
 /-! ### remove_nil_declaration — whole rule on a fragment (stage-3 lifting: equality up to cell renumbering) -/
 
